@@ -66,12 +66,14 @@ pub struct Case {
 }
 
 impl Case {
+    /// the probe row is the last but one row: entries after it must stay readable too
     fn probe(&mut self) -> &mut Row {
-        if self.probe_in_user {
-            self.user.last_mut().unwrap()
-        } else {
-            self.system.last_mut().unwrap()
-        }
+        let rows = if self.probe_in_user { &mut self.user } else { &mut self.system };
+        let n = rows.len();
+        &mut rows[n - 2]
+    }
+    fn probe_index(&self) -> usize {
+        (if self.probe_in_user { self.user.len() } else { self.system.len() }) - 2
     }
 }
 
@@ -87,8 +89,14 @@ fn baseline(user: bool, matrix: Matrix) -> Case {
         Row::new("行く", 1, 1, 5105, P_VERB).reading("イク"),
         Row::new("行っ", 1, 1, 5122, P_VERB2).reading("イッ").norm("行く").dic_form("5"),
         Row::new("さ", 1, 1, 700, P_NOUN).reading("サ"),
+        Row::new("ん", 1, 0, 900, P_PROPN).reading("ン").norm("む").synonyms("7"),
     ];
-    let user_rows = vec![Row::new("府", 1, 1, 2914, P_NOUN).reading("フ"), Row::new("す", 0, 0, 10, P_NOUN).reading("ス")];
+    let mut system = system;
+    if user {
+        // the system dictionary of the user case has no probe row
+        system.remove(7);
+    }
+    let user_rows = vec![Row::new("府", 1, 1, 2914, P_NOUN).reading("フ"), Row::new("す", 0, 0, 10, P_NOUN).reading("ス"), Row::new("を", 1, 1, 20, P_PROPN).reading("ヲ").norm("お").splits("C", "0/U0", "*")];
     let mut c = Case { system, user: if user { user_rows } else { vec![] }, probe_in_user: user, matrix };
     let _ = c.probe();
     c
@@ -161,7 +169,7 @@ pub fn deviations() -> Vec<Dev> {
     }));
     d.push(dev("dic_form", "dictionary form = other system word".into(), |c| c.probe().dic_form = "5".into()));
     d.push(dev("dic_form", "dictionary form = itself".into(), |c| {
-        let idx = if c.probe_in_user { c.user.len() - 1 } else { c.system.len() - 1 };
+        let idx = c.probe_index();
         let pu = c.probe_in_user;
         c.probe().dic_form = if pu { format!("U{}", idx) } else { format!("{}", idx) };
     }));
